@@ -11,8 +11,10 @@ import (
 	"encoding/json"
 	"fmt"
 	"os"
+	"runtime"
 	"sort"
 	"strings"
+	"sync"
 	"testing"
 )
 
@@ -75,9 +77,9 @@ func valuesD(depth int, leaves []J, maxArr int, dups bool) []J {
 	return out
 }
 
-func isVar(s string) bool   { return strings.HasPrefix(s, "?") }
-func isOpt(s string) bool   { return strings.HasPrefix(s, "??") }
-func isAnon(s string) bool  { return s == "?" }
+func isVar(s string) bool  { return strings.HasPrefix(s, "?") }
+func isOpt(s string) bool  { return strings.HasPrefix(s, "??") }
+func isAnon(s string) bool { return s == "?" }
 func ineqOf(v string) (op, plain string) {
 	if len(v) < 3 {
 		return "", ""
@@ -402,6 +404,45 @@ func emit(st *stats) {
 	}
 }
 
+// mergeShards runs f on interleaved shards of the pattern space, one per core, and adds the tallies up.
+func mergeShards(st *stats, patterns []J, f func([]J) *stats) {
+	n := runtime.NumCPU()
+	if n > len(patterns) {
+		n = len(patterns)
+	}
+	if n < 1 {
+		n = 1
+	}
+	parts := make([][]J, n)
+	for i, p := range patterns {
+		parts[i%n] = append(parts[i%n], p)
+	}
+	res := make([]*stats, n)
+	var wg sync.WaitGroup
+	for i := range parts {
+		wg.Add(1)
+		go func(i int) {
+			defer wg.Done()
+			res[i] = f(parts[i])
+		}(i)
+	}
+	wg.Wait()
+	for _, r := range res {
+		st.Evaluations += r.Evaluations
+		st.Nontrivial += r.Nontrivial
+		for _, x := range r.Failures {
+			if len(st.Failures) < 5 {
+				st.Failures = append(st.Failures, x)
+			}
+		}
+		for _, x := range r.Samples {
+			if len(st.Samples) < 3 {
+				st.Samples = append(st.Samples, x)
+			}
+		}
+	}
+}
+
 func thorough() bool { return os.Getenv("VERIF_TIER") == "thorough" }
 
 // TestBoundedC01Fits: every returned binding set makes the pattern fit the message.
@@ -433,41 +474,51 @@ func TestBoundedC01Fits(t *testing.T) {
 	}
 	inits := []Bindings{{}, {"?x": 1.0}, {"?x": map[string]J{"a": 1.0}}, {"?<n": 2.0}, {"?<n": 2.0, "?n": 1.0}, {"?y": "x", "??o": 2.0}}
 	st.Patterns, st.Messages = len(patterns), len(messages)
+	if os.Getenv("VERIF_COUNT_ONLY") != "" {
+		fmt.Printf("COUNT C01 patterns=%d messages=%d inits=%d\n", len(patterns), len(messages), len(inits))
+		return
+	}
 	st.Bound = fmt.Sprintf("patterns: depth<=%d over leaves %s (+depth 2 over a reduced leaf set in quick), supported fragment; messages: depth<=2 over keys {a,b}, arrays<=2; %d initial binding sets", depth, js(pleaves), len(inits))
-	seen := map[string]bool{}
-	for _, p := range patterns {
-		for _, m := range messages {
-			for _, in := range inits {
-				bss, err := Match(p, m, in.Copy())
-				st.Evaluations++
-				if err != nil {
-					continue
-				}
-				for _, bs := range bss {
-					key := js(p) + "|" + js(bs)
-					if !seen[key] {
-						seen[key] = true
-						st.Nontrivial++
+	// the pattern space is sharded over the cores; every shard keeps its own tallies
+	shard := func(ps []J) *stats {
+		st := &stats{}
+		seen := map[string]bool{}
+		for _, p := range ps {
+			for _, m := range messages {
+				for _, in := range inits {
+					bss, err := Match(p, m, in.Copy())
+					st.Evaluations++
+					if err != nil {
+						continue
 					}
-					// extension of the given bindings
-					for k, v := range in {
-						if w, have := bs[k]; !have || js(w) != js(v) {
-							if len(st.Failures) < 5 {
-								st.Failures = append(st.Failures, fmt.Sprintf("given binding %s changed: pattern %s message %s given %s result %s", k, js(p), js(m), js(in), js(bs)))
+					for _, bs := range bss {
+						key := js(p) + "|" + js(bs)
+						if !seen[key] {
+							seen[key] = true
+							st.Nontrivial++
+						}
+						// extension of the given bindings
+						for k, v := range in {
+							if w, have := bs[k]; !have || js(w) != js(v) {
+								if len(st.Failures) < 5 {
+									st.Failures = append(st.Failures, fmt.Sprintf("given binding %s changed: pattern %s message %s given %s result %s", k, js(p), js(m), js(in), js(bs)))
+								}
 							}
 						}
-					}
-					if !fits(p, bs, m) {
-						if len(st.Failures) < 5 {
-							st.Failures = append(st.Failures, fmt.Sprintf("result does not fit: pattern %s message %s given %s result %s", js(p), js(m), js(in), js(bs)))
+						if !fits(p, bs, m) {
+							if len(st.Failures) < 5 {
+								st.Failures = append(st.Failures, fmt.Sprintf("result does not fit: pattern %s message %s given %s result %s", js(p), js(m), js(in), js(bs)))
+							}
+						} else if len(st.Samples) < 3 && len(bs) > len(in) {
+							st.Samples = append(st.Samples, fmt.Sprintf("pattern %s message %s given %s -> %s fits", js(p), js(m), js(in), js(bs)))
 						}
-					} else if len(st.Samples) < 3 && len(bs) > len(in) {
-						st.Samples = append(st.Samples, fmt.Sprintf("pattern %s message %s given %s -> %s fits", js(p), js(m), js(in), js(bs)))
 					}
 				}
 			}
 		}
+		return st
 	}
+	mergeShards(st, patterns, shard)
 	emit(st)
 	if len(st.Failures) > 0 {
 		t.Fatalf("C01 bounded: %d failures, first: %s", len(st.Failures), st.Failures[0])
@@ -506,75 +557,80 @@ func TestBoundedC02Embeddings(t *testing.T) {
 	messages := values(2, mleaves, marr)
 	st.Patterns, st.Messages = len(patterns), len(messages)
 	st.Bound = fmt.Sprintf("plain patterns: depth<=2 over leaves %s, keys {a,b}, arrays<=2, each variable at most once; messages: depth<=2 over %s, arrays<=%d (sets); exhaustive over all pairs", js(pleaves), js(mleaves), marr)
-	for _, p := range patterns {
-		vs := map[string]int{}
-		varsOf(p, vs)
-		var names []string
-		for v := range vs {
-			names = append(names, v)
-		}
-		sort.Strings(names)
-		for _, m := range messages {
-			// a planted value under an array variable must differ from that array's constant members: handled by
-			// the oracle itself (containment needs distinct elements)
-			cands := map[string]J{}
-			subvalues(m, cands)
-			var keys []string
-			for k := range cands {
-				keys = append(keys, k)
+	shard := func(ps []J) *stats {
+		st := &stats{}
+		for _, p := range ps {
+			vs := map[string]int{}
+			varsOf(p, vs)
+			var names []string
+			for v := range vs {
+				names = append(names, v)
 			}
-			sort.Strings(keys)
-			want := map[string]bool{}
-			var rec func(i int, s map[string]J)
-			rec = func(i int, s map[string]J) {
-				if i == len(names) {
-					if embeds(p, s, m) {
-						b := Bindings{}
-						for k, v := range s {
-							b[k] = v
+			sort.Strings(names)
+			for _, m := range messages {
+				// a planted value under an array variable must differ from that array's constant members: handled by
+				// the oracle itself (containment needs distinct elements)
+				cands := map[string]J{}
+				subvalues(m, cands)
+				var keys []string
+				for k := range cands {
+					keys = append(keys, k)
+				}
+				sort.Strings(keys)
+				want := map[string]bool{}
+				var rec func(i int, s map[string]J)
+				rec = func(i int, s map[string]J) {
+					if i == len(names) {
+						if embeds(p, s, m) {
+							b := Bindings{}
+							for k, v := range s {
+								b[k] = v
+							}
+							want[js(b)] = true
 						}
-						want[js(b)] = true
+						return
 					}
-					return
+					for _, k := range keys {
+						s[names[i]] = cands[k]
+						rec(i+1, s)
+					}
+					delete(s, names[i])
 				}
-				for _, k := range keys {
-					s[names[i]] = cands[k]
-					rec(i+1, s)
+				rec(0, map[string]J{})
+				bss, err := Match(p, m, Bindings{})
+				st.Evaluations++
+				if err != nil {
+					continue
 				}
-				delete(s, names[i])
-			}
-			rec(0, map[string]J{})
-			bss, err := Match(p, m, Bindings{})
-			st.Evaluations++
-			if err != nil {
-				continue
-			}
-			got := map[string]bool{}
-			for _, bs := range bss {
-				got[js(bs)] = true
-			}
-			if len(want) > 0 {
-				st.Nontrivial++
-			}
-			bad := ""
-			for w := range want {
-				if !got[w] {
-					bad = "embedding not returned: " + w
+				got := map[string]bool{}
+				for _, bs := range bss {
+					got[js(bs)] = true
 				}
-			}
-			for g := range got {
-				if !want[g] {
-					bad = "returned set is not an embedding: " + g
+				if len(want) > 0 {
+					st.Nontrivial++
 				}
-			}
-			if bad != "" && len(st.Failures) < 5 {
-				st.Failures = append(st.Failures, fmt.Sprintf("%s; pattern %s message %s got %v", bad, js(p), js(m), keysOf(got)))
-			}
-			if bad == "" && len(st.Samples) < 3 && len(want) > 1 {
-				st.Samples = append(st.Samples, fmt.Sprintf("pattern %s message %s -> exactly %v", js(p), js(m), keysOf(want)))
+				bad := ""
+				for w := range want {
+					if !got[w] {
+						bad = "embedding not returned: " + w
+					}
+				}
+				for g := range got {
+					if !want[g] {
+						bad = "returned set is not an embedding: " + g
+					}
+				}
+				if bad != "" && len(st.Failures) < 5 {
+					st.Failures = append(st.Failures, fmt.Sprintf("%s; pattern %s message %s got %v", bad, js(p), js(m), keysOf(got)))
+				}
+				if bad == "" && len(st.Samples) < 3 && len(want) > 1 {
+					st.Samples = append(st.Samples, fmt.Sprintf("pattern %s message %s -> exactly %v", js(p), js(m), keysOf(want)))
+				}
 			}
 		}
+		return st
 	}
+	mergeShards(st, patterns, shard)
 	emit(st)
 	if len(st.Failures) > 0 {
 		t.Fatalf("C02 bounded: %d failures, first: %s", len(st.Failures), st.Failures[0])
